@@ -19,11 +19,14 @@ RESTRICTED = {"filter": 10, "mutate": 10, "select": 5, "rename": 5, "arrange": 6
 @st.composite
 def c08_case(draw, tier):
     deep = tier == "thorough"
-    if draw(st.integers(0, 9)) < 7:
+    r = draw(st.integers(0, 9))
+    if r < 4:
         cfg = pipegen.PCfg(weights=GENERAL, max_len=10 if deep else 7, min_len=3, expr=Cfg(max_depth=2), sub_len=2)
         case = draw(pipegen.pipeline_case(cfg))
         case["mode"] = "general"
         return case
+    if r < 8:
+        return _directed(draw, deep)
     # restricted grammar: element-wise mutate/filter, select, rename, arrange, one grouped summarize, final slice_head
     cfg = pipegen.PCfg(weights=RESTRICTED, max_len=6, min_len=1, agg_in_mutate=False, win_in_mutate=False, max_tables=1,
                        expr=Cfg(max_depth=2))
@@ -45,6 +48,107 @@ def c08_case(draw, tier):
     case["result"] = var
     case["mode"] = "restricted"
     case["_gen"] = {"skipped": g.skipped, "gen_rejects": g.gen_rejects, "classes": sorted(g.classes), "excluded": g.excluded}
+    return case
+
+
+STATE = ["window", "window", "window", "slice", "filter", "group_window", "summarize", "join"]
+TRIGGER = ["filter", "filter", "slice_head", "mutate_window", "summarize", "arrange", "group_summarize", "join", "union"]
+
+
+def _directed(draw, deep):
+    """state (window column / slice / filter / grouped window / summarize / join) -> optionally hide the new columns
+    (select, drop, overwrite, rename) -> optionally alias() -> a verb that may need a subquery -> the hidden columns are
+    copied into visible ones, so that whatever the SELECT merged or dropped shows up in the result."""
+    cfg = pipegen.PCfg(weights=GENERAL, max_len=3, min_len=0, expr=Cfg(max_depth=2), sub_len=1, win_direct=8, expose=0)
+    g = pipegen.PipeGen(draw, cfg)
+    var = g.source()
+
+    def step(fn, *a, **kw):
+        nonlocal var
+        try:
+            v2 = fn(var, *a, **kw)
+        except (pipegen.OutOfDomain, pipegen.GenSkip):
+            v2 = None
+        if v2 is not None:
+            var = v2
+        return v2
+
+    if draw(st.integers(0, 3)) == 0:
+        var = g.extend(var, 1)
+    new_cols = []
+    for what in draw(st.lists(st.sampled_from(STATE), min_size=1, max_size=2)):
+        before = {c for _, c in g.t(var).visible}
+        if what == "window":
+            step(g.v_mutate)
+        elif what == "slice":
+            step(g.v_arrange)
+            step(g.v_slice_head)
+        elif what == "filter":
+            step(g.v_filter)
+        elif what == "group_window":
+            if step(g.v_group_by) is not None:
+                step(g.v_mutate)
+                if draw(st.booleans()):
+                    step(lambda v: g.emit({"out": g.new_var(), "verb": "ungroup", "in": v}))
+        elif what == "summarize":
+            if draw(st.booleans()):
+                step(g.v_group_by)
+            step(g.v_summarize)
+        elif what == "join":
+            step(g.v_join)
+        new_cols += [(n, c) for n, c in g.t(var).visible if c not in before]
+    # hide
+    hide = draw(st.sampled_from(["none", "none", "select", "drop", "overwrite", "rename"]))
+    t = g.t(var)
+    live = [(n, c) for n, c in new_cols if (n, c) in t.visible and c not in t.group]
+    if live and hide != "none" and len(t.visible) > len(live):
+        if hide in ("select", "drop"):
+            names = {n for n, _ in live}
+            if hide == "drop":
+                step(lambda v: g.emit({"out": g.new_var(), "verb": "drop", "in": v, "cols": [{"c": n} for n in sorted(names)]}))
+            else:
+                keep = [{"c": n} for n, _ in t.visible if n not in names]
+                step(lambda v: g.emit({"out": g.new_var(), "verb": "select", "in": v, "cols": keep}))
+        elif hide == "overwrite":
+            n0, c0 = live[0]
+            lit = {"int": 0, "float": 0.5, "bool": True, "str": "o"}.get(t.fam[c0])
+            if lit is not None:
+                step(lambda v: g.emit({"out": g.new_var(), "verb": "mutate", "in": v, "items": [[n0, ["lit", lit]]]}))
+        else:
+            step(g.v_rename)
+    if draw(st.integers(0, 3)) == 0:
+        step(g.v_alias)
+    g.cfg.win_direct = 9
+    trig = draw(st.sampled_from(TRIGGER))
+    if trig == "filter":
+        step(g.v_filter)
+    elif trig == "slice_head":
+        step(g.v_arrange)
+        step(g.v_slice_head)
+    elif trig == "mutate_window":
+        step(g.v_mutate)
+    elif trig == "summarize":
+        step(g.v_summarize)
+    elif trig == "arrange":
+        step(g.v_arrange)
+    elif trig == "group_summarize":
+        if step(g.v_group_by) is not None:
+            step(g.v_summarize)
+    elif trig == "join":
+        step(g.v_join)
+    elif trig == "union":
+        step(g.v_union)
+    g.cfg.win_direct = 2
+    if draw(st.booleans()):
+        var = g.expose_hidden(var, k=3)
+    var = g.extend(var, draw(st.integers(0, 3 if deep else 2)))
+    if draw(st.integers(0, 2)) == 0:
+        var = g.expose_hidden(var, k=2)
+    case = g.case
+    case["result"] = var
+    case["mode"] = "directed"
+    case["_gen"] = {"skipped": g.skipped, "gen_rejects": g.gen_rejects, "classes": sorted(g.classes | {"trigger:" + trig}),
+                    "excluded": g.excluded}
     return case
 
 
@@ -78,9 +182,12 @@ def _interesting(case):
 
 class C08(Check):
     ID = "C08"
-    RULE = ("Hypothesis composite strategy producing verb histories on a SQLite-backed and a Polars-backed twin: 70% general "
+    RULE = ("Hypothesis composite strategy producing verb histories on a SQLite-backed and a Polars-backed twin: 40% general "
             "orders of filter / window-or-aggregate mutate / summarize / slice_head / arrange / group_by / join / union / "
-            "alias, 30% the restricted grammar (element-wise mutate/filter, select, rename, arrange, one grouped summarize, "
+            "alias; 40% directed histories (a state-creating verb - window column, slice, filter, grouped window, summarize, "
+            "join - then optionally hiding the new columns by select / drop / overwrite / rename, optionally alias(), then a "
+            "verb that may need a subquery, then copying the hidden columns into visible ones and more verbs); 20% the "
+            "restricted grammar (element-wise mutate/filter, select, rename, arrange, one grouped summarize, "
             "final slice_head). Oracle: (1) a SQL verb call succeeds or raises SubqueryError (anything else is a failure); "
             "(2) after SubqueryError the same verb behind alias() (left, right or both operands) is accepted; (3) every "
             "accepted pipeline exports the same table as Polars and as the reference; (4) restricted histories never raise "
